@@ -180,4 +180,16 @@ theorem new_spec (HSmall : primes 6542 = some (primesBelow 65536)) :
       exact off_init p (hpos p hp)
     · rfl
 
+/-- the small primes of a fresh sieve -/
+theorem new_smalls (HSmall : primes 6542 = some (primesBelow 65536)) :
+    ∃ ps0, PrimeSieve.new = some ps0 ∧ ps0.smalls = primesBelow 65536 := by
+  have hlast : (primesBelow 65536).getLast? = some 65521 := by
+    rw [primesBelow_65536]; simp
+  unfold PrimeSieve.new
+  rw [HSmall]
+  simp only
+  rw [if_pos hlast]
+  generalize primesBelow 65536 = L
+  exact ⟨{ smalls := L, offsets := L.map (fun p => p - 1 - 65535 % p), bc := 0 }, rfl, rfl⟩
+
 end Ymq.Primes
